@@ -23,7 +23,7 @@ def population():
 
 
 CLASSES = {"K": RW.K, "Sub": RW.Sub, "E": RW.E, "U": RW.U}
-RESULT = {"meth": 1, "other": 2, "deco": 3, "deco2": 7, "tree": 5, "glob": 6, "store": 9}
+RESULT = {"meth": 1, "other": 2, "deco": 3, "deco2": 7, "tree": 5, "glob": 6, "store": 9, "__call__": 11}
 PROPS = {"prop": 4, "prop2": 8}
 
 
@@ -44,6 +44,8 @@ def run_case(c):
         text = f"{c['target']}.{m}({recvname} as who, x) > v"
     elif c["path"] == "selffocus" and c["target"] in pop and m not in PROPS:
         text = f"{c['target']}.{m} > {recvname} as who"          # the receiver parameter itself is the focus
+    elif c["path"] == "callonly" and m not in PROPS:
+        text = f"{c['target']}.{m}()"                            # nothing captured: one (empty) record per call
     elif c["path"] == "enter" and m not in PROPS:
         text = f"{c['target']}.{m} > #enter"                     # the entry event of the method, for one receiver
     elif c["path"] == "external":
@@ -86,6 +88,9 @@ def run_case(c):
                     rets.append(r == o.key + PROPS[m])
                 elif nested and via[i]:
                     r = RW.poll(o, 10 + i, m)
+                    rets.append(r == 10 + i + RESULT[m])
+                elif m == "__call__":
+                    r = o(10 + i)                                # the implicit special-method call
                     rets.append(r == 10 + i + RESULT[m])
                 else:
                     r = getattr(o, m)(10 + i)
